@@ -179,22 +179,21 @@ mutant("M16g", "C16", "yamlpath/commands/yaml_paths.py",
             for node_coordinate in processor.get_nodes(result, mustexist=True):""",
        "yaml-paths -L drops the value of the last result")
 
-mutant("M16h", "C16", "yamlpath/commands/yaml_set.py",
-       """    if not (in_file or in_stream_mode):
-        has_errors = True
-        log.error("There must be a YAML_FILE or STDIN document.")""",
-       """    if not (in_file or in_stream_mode):
-        in_stream_mode = True""",
-       "yaml-set with no file on a terminal reads the terminal")
+mutant("M16h", "C16", "yamlpath/commands/yaml_get.py",
+       """    in_stream_mode = in_file.strip() == "-" or (
+        not in_file and not args.nostdin and not sys.stdin.isatty()
+    )""",
+       """    in_stream_mode = in_file.strip() == "-" or (
+        not in_file and not args.nostdin
+    )""",
+       "yaml-get with no file reads standard input even when it is a "
+       "terminal (blocks for ever)")
 
 # ---------------------------------------------------------------- C19
-mutant("M19a", "C19", "yamlpath/commands/eyaml_rotate_keys.py",
-       """                    seen_anchors.append(anchor_name)
-""",
-       """                    seen_anchors = [anchor_name]
-""",
-       "eyaml-rotate-keys remembers only the last anchor (double rotation "
-       "with two anchored secrets)")
+# (M19a, "seen_anchors keeps only the last anchor", was withdrawn: a second
+# rotation of an already re-keyed value always fails to decrypt under the old
+# key, so the tool exits 3 and the property -- which speaks of successful
+# runs -- is not broken by it.)
 
 mutant("M19b", "C19", "yamlpath/eyaml/eyamlprocessor.py",
        """        return value.replace("\\n", "").replace(" ", "").startswith("ENC[")""",
@@ -331,7 +330,7 @@ mutant("M09d", "C09", "yamlpath/processor.py",
                             yaml_path, depth + 1, value
                         )
                         if len(data) > 3 and hasattr(data, "move_to_end"):
-                            data.move_to_end(stripped_attrs, last=False)
+                            data.move_to_end(next(iter(data)))
                         next_translated_path = (""",
-       "a created key is moved to the front of hashes with more than three "
-       "keys (existing key order changes)")
+       "creating a key in a hash with more than three keys moves the first "
+       "existing key to the end (existing key order changes)")
